@@ -86,45 +86,71 @@ theorem C12_updates_substitute_partial (old new : List (Key × Nat)) (hk : old.m
 def reportOf {M F R U : Type} (p : Pipe M F R U) (E : List Nat) (r0 r' : R) : List Nat × List Nat :=
   vulnDiff (analyseFresh p E r0) (analyseInRun p E r0 r')
 
-/-- Reduction to C13, for runs WITHOUT an ExplicitVulns list.  Let a run start from manifest `m`, let the strategy's
-in-memory manifest have requirements `r'`, let the reported updates `us` substitute the original requirements to
-`r'` (for `ConstructPatches`' updates: `C12_updates_substitute_partial`), and let `Write` succeed with file `f`.  If the
-writer is correct (C13) then the FRESH analysis of what is read back from `f` — the options' analysis applied to
-`read f`, not to the in-memory manifest — consists of exactly the original vulnerabilities minus the reported
-fixed plus the reported introduced ones.
-`_partial`: (1) `E = []`; with an ExplicitVulns list the statement is false for the unchanged code
-(`C12_explicit_vulns_witness`, known finding C12/explicit-vulns-introduced).  (2) `WriterCorrect` is a hypothesis;
-it is a theorem for package.json (`C12_npm_writer_correct`), for pom.xml it holds on the literal fragment only and
-fails in the classes C13/pom-origin-ignored, pom-shared-property, pom-property-other-profile (known findings).
-(3) `raw` being a function of the requirements is the determinism assumption on resolver and matcher. -/
-theorem C12_roundtrip_partial {M F R U : Type} (p : Pipe M F R U) (wf : M → List U → Prop) (hw : WriterCorrect p wf)
-    (m : M) (us : List U) (f : F) (r' : R) (hwf : wf m us) (hwr : p.write m us = some f)
-    (hsub : p.subst (p.requirements m) us = r') (hnd : (p.raw r').Nodup) :
-    p.requirements (p.read f) = r' ∧
-    ∀ v, v ∈ analyseFresh p [] (p.requirements (p.read f)) ↔
-      expectedAfter (analyseFresh p [] (p.requirements m)) (reportOf p [] (p.requirements m) r').1
-        (reportOf p [] (p.requirements m) r').2 v = true := by
-  have h1 : p.requirements (p.read f) = r' := by rw [hw m us f hwf hwr, hsub]
-  refine ⟨h1, ?_⟩
-  intro v
-  rw [h1]
-  have e1 : analyseFresh p [] r' = p.raw r' := by simp [analyseFresh]
-  have e2 : analyseInRun p [] (p.requirements m) r' = p.raw r' := by simp [analyseInRun]
-  unfold reportOf
-  rw [e1, e2]
-  exact C12_after_is_expected_partial _ _ hnd v
+/-- The analysis made inside the run and a fresh analysis agree on a patched requirement list exactly when no
+vulnerability outside the ExplicitVulns list enters the graph with the patch (always, when there is no such list). -/
+def NoNewOutsideExplicit {M F R U : Type} (p : Pipe M F R U) (E : List Nat) (r0 r' : R) : Prop :=
+  E = [] ∨ ∀ v ∈ p.raw r', v ∉ E → v ∈ p.raw r0
 
-/-- the same for a patch picked by `choosePatches`: if the chosen patch carries that report, the fresh analysis is
-the original minus ITS fixed plus ITS introduced -/
+theorem analyseInRun_eq_fresh {M F R U : Type} (p : Pipe M F R U) (E : List Nat) (r0 r' : R)
+    (h : NoNewOutsideExplicit p E r0 r') : analyseInRun p E r0 r' = analyseFresh p E r' := by
+  unfold analyseInRun analyseFresh
+  apply List.filter_congr
+  intro v hv
+  rcases h with h | h
+  · subst h; simp
+  · by_cases hE : v ∈ E
+    · simp [hE]
+    · have := h v hv hE
+      cases hEe : E.isEmpty <;> simp_all
+
+/-- C12, clause 1, with the report COMPUTED by the model.  A run starts from manifest `m`; a candidate patch is a list of
+requirement updates `us`; the strategy's in-memory manifest has the requirements `subst (requirements m) us`, and
+`ConstructPatches` attaches the report `reportOf` = (fixed, introduced) computed from the run's two analyses.  If `Write`
+succeeds with file `f`, then the FRESH analysis of what is read back from `f` (same options) is exactly the original
+vulnerabilities minus that patch's fixed plus its introduced ones.
+Hypotheses: the writer is correct (C13: a theorem for package.json — `C12_npm_real_fix_partial` — and for the literal
+pom fragment — `C12_pom_real_fix_partial`); resolve + match is a function `raw` of the requirements (determinism of
+deps.dev's resolver and of the matcher) that lists every id once; and `NoNewOutsideExplicit`: with an ExplicitVulns list
+the statement is FALSE for the unchanged code when the patch brings in a vulnerability outside the list
+(`C12_explicit_vulns_witness`, known finding C12/explicit-vulns-introduced). -/
+theorem C12_roundtrip_partial {M F R U : Type} (p : Pipe M F R U) (wf : M → List U → Prop) (hw : WriterCorrect p wf)
+    (E : List Nat) (m : M) (us : List U) (f : F) (hwf : wf m us) (hwr : p.write m us = some f)
+    (hE : NoNewOutsideExplicit p E (p.requirements m) (p.subst (p.requirements m) us))
+    (hnd : (p.raw (p.subst (p.requirements m) us)).Nodup) :
+    let rep := reportOf p E (p.requirements m) (p.subst (p.requirements m) us)
+    ∀ v, v ∈ analyseFresh p E (p.requirements (p.read f)) ↔
+      expectedAfter (analyseFresh p E (p.requirements m)) rep.1 rep.2 v = true := by
+  intro rep v
+  rw [hw m us f hwf hwr]
+  simp only [rep, reportOf]
+  rw [analyseInRun_eq_fresh p E _ _ hE]
+  apply C12_after_is_expected_partial
+  unfold analyseFresh
+  exact hnd.sublist List.filter_sublist
+
+/-- the patch `ConstructPatches` builds for a candidate, as `choosePatches` sees it (`enc` names package and old version
+of an update) -/
+def patchOf {M F R U : Type} (p : Pipe M F R U) (E : List Nat) (enc : U → Update) (m : M) (us : List U) : Patch :=
+  ⟨us.map enc, (reportOf p E (p.requirements m) (p.subst (p.requirements m) us)).1,
+    (reportOf p E (p.requirements m) (p.subst (p.requirements m) us)).2⟩
+
+/-- … and for the patches `choosePatches` actually picks: every chosen patch is the patch of one of the candidates, and
+applying that candidate makes the fresh analysis equal the original minus ITS fixed plus ITS introduced. -/
 theorem C12_chosen_patch_is_real_partial {M F R U : Type} (p : Pipe M F R U) (wf : M → List U → Prop)
-    (hw : WriterCorrect p wf) (m : M) (us : List U) (f : F) (r' : R) (hwf : wf m us) (hwr : p.write m us = some f)
-    (hsub : p.subst (p.requirements m) us = r') (hnd : (p.raw r').Nodup)
-    (all : List Patch) (k : Int) (ni : Bool) (pt : Patch) (_hc : pt ∈ choosePatches all k ni)
-    (hf : pt.fixed = (reportOf p [] (p.requirements m) r').1) (hi : pt.introduced = (reportOf p [] (p.requirements m) r').2) :
-    ∀ v, v ∈ analyseFresh p [] (p.requirements (p.read f)) ↔
-      expectedAfter (analyseFresh p [] (p.requirements m)) pt.fixed pt.introduced v = true := by
-  rw [hf, hi]
-  exact (C12_roundtrip_partial p wf hw m us f r' hwf hwr hsub hnd).2
+    (hw : WriterCorrect p wf) (E : List Nat) (enc : U → Update) (m : M) (cands : List (List U)) (k : Int) (ni : Bool)
+    (pt : Patch) (hc : pt ∈ choosePatches (cands.map (patchOf p E enc m)) k ni)
+    (hall : ∀ us ∈ cands, wf m us ∧ NoNewOutsideExplicit p E (p.requirements m) (p.subst (p.requirements m) us) ∧
+      (p.raw (p.subst (p.requirements m) us)).Nodup) :
+    ∃ us ∈ cands, pt = patchOf p E enc m us ∧
+      ∀ f, p.write m us = some f → ∀ v, v ∈ analyseFresh p E (p.requirements (p.read f)) ↔
+        expectedAfter (analyseFresh p E (p.requirements m)) pt.fixed pt.introduced v = true := by
+  have hin := (chooseAux_sublist (cands.map (patchOf p E enc m)) [] [] k ni).subset hc
+  rw [List.mem_map] at hin
+  obtain ⟨us, hus, rfl⟩ := hin
+  refine ⟨us, hus, rfl, ?_⟩
+  intro f hf
+  obtain ⟨h1, h2, h3⟩ := hall us hus
+  exact C12_roundtrip_partial p wf hw E m us f h1 hf h2 h3
 
 /-- When no patch is reported, the manifest read back has the requirements it had (given the writer's identity on
 no update, i.e. `subst r [] = r`). -/
@@ -188,16 +214,40 @@ theorem C12_npm_writer_correct (raw : List Req → List Nat) :
     subst h
     exact (C13_npm_roundtrip_partial d d' us hwf.1 hwf.2 hw).1
 
-/-- hence, for package.json and runs without ExplicitVulns: a reported fix is a real fix (modulo the determinism
-of resolver and matcher, and the strategy's updates substituting to its in-memory requirements) -/
-theorem C12_npm_roundtrip_partial (raw : List Req → List Nat) (d d' : Doc) (us : List Up) (r' : List Req)
+/-- hence, for package.json: a reported fix is a real fix.  No hypothesis about the writer is left. -/
+theorem C12_npm_real_fix_partial (raw : List Req → List Nat) (E : List Nat) (d d' : Doc) (us : List Up)
     (hwf : WFdoc d) (hu : ∀ u ∈ us, WFup u = true) (hw : write d us = .ok d')
-    (hsub : substitute (requirements d) us = r') (hnd : (raw r').Nodup) :
-    requirements d' = r' ∧
-    ∀ v, v ∈ analyseFresh (npmPipe raw) [] (requirements d') ↔
-      expectedAfter (analyseFresh (npmPipe raw) [] (requirements d)) (reportOf (npmPipe raw) [] (requirements d) r').1
-        (reportOf (npmPipe raw) [] (requirements d) r').2 v = true := by
-  have := C12_roundtrip_partial (npmPipe raw) _ (C12_npm_writer_correct raw) d us d' r' ⟨hwf, hu⟩ (by simp [npmPipe, hw]) hsub hnd
+    (hE : NoNewOutsideExplicit (npmPipe raw) E (requirements d) (substitute (requirements d) us))
+    (hnd : (raw (substitute (requirements d) us)).Nodup) :
+    let rep := reportOf (npmPipe raw) E (requirements d) (substitute (requirements d) us)
+    ∀ v, v ∈ analyseFresh (npmPipe raw) E (requirements d') ↔
+      expectedAfter (analyseFresh (npmPipe raw) E (requirements d)) rep.1 rep.2 v = true := by
+  have := C12_roundtrip_partial (npmPipe raw) _ (C12_npm_writer_correct raw) E d us d' ⟨hwf, hu⟩ (by simp [npmPipe, hw]) hE hnd
   simpa [npmPipe] using this
 
 end Scalibr.Npm
+
+namespace Scalibr.Pom
+open Scalibr.Pipeline
+
+/-- the pipeline for pom.xml over the abstract pom of C13 -/
+def pomPipe (raw : List Req → List Nat) : Pipe Pom Pom (List Req) Upd :=
+  ⟨requirements, id, write, substitute, raw⟩
+
+/-- `WriterCorrect` for pom.xml holds on the literal fragment (C13_pom_literal_roundtrip_partial); outside it the
+unchanged writer is known to be wrong in the classes C13/pom-origin-ignored, pom-shared-property and
+pom-property-other-profile -/
+theorem C12_pom_writer_correct_partial (raw : List Req → List Nat) : WriterCorrect (pomPipe raw) LiteralCases := by
+  intro pom us f hwf h
+  exact (roundtrip_literal pom f us hwf h).1
+
+theorem C12_pom_real_fix_partial (raw : List Req → List Nat) (E : List Nat) (pom pom' : Pom) (us : List Upd)
+    (c : LiteralCases pom us) (hw : write pom us = some pom')
+    (hE : NoNewOutsideExplicit (pomPipe raw) E (requirements pom) (substitute (requirements pom) us))
+    (hnd : (raw (substitute (requirements pom) us)).Nodup) :
+    let rep := reportOf (pomPipe raw) E (requirements pom) (substitute (requirements pom) us)
+    ∀ v, v ∈ analyseFresh (pomPipe raw) E (requirements pom') ↔
+      expectedAfter (analyseFresh (pomPipe raw) E (requirements pom)) rep.1 rep.2 v = true :=
+  C12_roundtrip_partial (pomPipe raw) _ (C12_pom_writer_correct_partial raw) E pom us pom' c hw hE hnd
+
+end Scalibr.Pom
